@@ -53,10 +53,21 @@ def apply_edits(d, edits):
     return None
 
 
+def apply_patch(d, patch):
+    """a seeded change kept as a unified diff (/verif/seeded/<id>/patch.diff): only its src/ part is applied to the scratch copy"""
+    p = patch if os.path.isabs(patch) else os.path.join(VERIF, patch)
+    if not os.path.exists(p):
+        return "patch missing: " + patch
+    r = subprocess.run(["git", "apply", "--include=src/*", "--include=Cargo.toml", p], cwd=d, stdout=subprocess.PIPE, stderr=subprocess.STDOUT, text=True)
+    if r.returncode != 0:
+        return "patch does not apply: " + r.stdout[-300:]
+    return None
+
+
 def run_one(m, prop, slot, repo="/repo"):
     d = scratch(repo)
     try:
-        err = apply_edits(d, m["edits"])
+        err = apply_patch(d, m["patch"]) if m.get("patch") else apply_edits(d, m["edits"])
         if err:
             return {"id": m["id"], "prop": prop, "status": "skipped (source drift)", "detail": err}
         r = subprocess.run([os.path.join(VERIF, "check"), prop, "--repo", d, "--slot", slot, "--no-evidence"],
